@@ -422,6 +422,12 @@ Room(arity) == /\ IsExpr /\ H >= arity /\ nops < MaxO /\ ntok < MaxT
 Keep == UNCHANGED <<mode, params, path, leaf>>
 Reduce(arity, node) == /\ stack' = Append(Pop(arity), node) /\ nops' = nops + 1 /\ ntok' = ntok + 1 /\ Keep
 
+BoolTyped(e) == e.k = "cmp" \/ (e.k = "un" /\ e.v[1] = "not")
+\* Left out of the family (by-catch of other properties, see notes): a tuple display of C-typed values (literals, comparisons)
+\* is a "ctuple" for the compiler; its truth test is mis-compiled (wrong constant / C that does not compile), and `is` between
+\* C-typed operands compares values
+CTyped(e) == e.k = "num" \/ FoldedNeg(e) \/ BoolTyped(e)
+CTuple(e) == e.k = "tuple" /\ e.c # <<>> /\ \A i \in 1..Len(e.c) : CTyped(e.c[i])
 \* operands that cannot raise when the definition is evaluated (names are symbolic objects that absorb every operator)
 Opnd(e) == e.k \notin {"atom", "opq", "tuple", "list", "set", "dict"}
 Base(e) == Opnd(e) /\ e.k # "num" /\ ~FoldedNeg(e)
@@ -436,24 +442,24 @@ Push == /\ IsExpr /\ H < (IF IsLit THEN 1 ELSE 3) /\ ntok + 1 + Half(H) <= MaxT 
         /\ ntok' = ntok + 1 /\ UNCHANGED <<mode, nops, params, path, leaf>>
 
 Unary == /\ Room(1)
-         /\ \E op \in UnOps : /\ (op # "not" => Opnd(Top(0)))
+         /\ \E op \in UnOps : /\ (op # "not" => Opnd(Top(0))) /\ (op = "not" => ~CTuple(Top(0)))
                               /\ Reduce(1, N("un", <<op>>, <<Top(0)>>))
 \* (`1 ** (a in b)`: ** on a C-typed bool operand follows the documented C typing of cpow=False (a double): left out;
 \*  a tuple display as a branch of a conditional expression next to an int literal is rejected by the compiler: by-catch)
-BoolTyped(e) == e.k = "cmp" \/ (e.k = "un" /\ e.v[1] = "not")
 Binary == /\ Room(2)
           /\ \E op \in BinOps : /\ Opnd(Top(1)) /\ Opnd(Top(0))
                                 /\ (op = "**" => ~BoolTyped(Top(1)) /\ ~BoolTyped(Top(0)))
                                 /\ Reduce(2, N("bin", <<op>>, <<Top(1), Top(0)>>))
-Boolean == /\ Room(2)
+Boolean == /\ Room(2) /\ ~CTuple(Top(1)) /\ ~CTuple(Top(0))
            /\ \E op \in BoolOps : Reduce(2, N("bool", <<op>>, <<Top(1), Top(0)>>))
 Compare == /\ Room(2)
-           /\ \E op \in CmpOps : Reduce(2, N("cmp", <<op>>, <<Top(1), Top(0)>>))
+           /\ \E op \in CmpOps : /\ (op \in {"is", "is not"} => ~CTyped(Top(1)) /\ ~CTyped(Top(0)))
+                                /\ Reduce(2, N("cmp", <<op>>, <<Top(1), Top(0)>>))
 \* (a chain with two adjacent constant operands is rewritten by ConstantFolding into a different, not always
 \*  value-equal expression: a matter of constant folding, not of signatures -- left out of the family)
 ChainCmp == /\ Room(3) /\ ~(Closed(Top(2)) /\ Closed(Top(1))) /\ ~(Closed(Top(1)) /\ Closed(Top(0)))
             /\ \E o1 \in ChainOps, o2 \in ChainOps : Reduce(3, N("cmp", <<o1, o2>>, <<Top(2), Top(1), Top(0)>>))
-Cond == /\ Room(3) /\ "cond" \in CtorSet /\ Top(2).k # "tuple" /\ Top(0).k # "tuple"
+Cond == /\ Room(3) /\ "cond" \in CtorSet /\ Top(2).k # "tuple" /\ Top(0).k # "tuple" /\ ~CTuple(Top(1))
         /\ Reduce(3, N("cond", <<>>, <<Top(2), Top(1), Top(0)>>))
 Display == \E ct \in CtorSet \cap DispCtors :
              CASE ct = "tuple1" -> Room(1) /\ Reduce(1, N("tuple", <<>>, <<Top(0)>>))
